@@ -42,7 +42,10 @@ func unitNameOf(fn *ssa.Function) string {
 
 // genFunc generates the verification conditions of one function under contract.
 func (p *Program) genFunc(fc *FuncContract) (g *Gen, fr *Frame, ur *UnitResult) {
-	ur = &UnitResult{Kind: "func", File: fc.File, Mode: "bv64 (machine integers are bit-vectors of their declared width)"}
+	ur = &UnitResult{Kind: "func", File: fc.File, Mode: "bv (machine integers are bit-vectors of their declared width; wrap-around exact)"}
+	if fc.IntMode {
+		ur.Mode = "int (integers are mathematical; every + - * << and narrowing conversion carries a no-overflow obligation)"
+	}
 	fn := p.findFunc(fc)
 	if fn == nil {
 		ur.Name = fc.Name
@@ -51,7 +54,7 @@ func (p *Program) genFunc(fc *FuncContract) (g *Gen, fr *Frame, ur *UnitResult) 
 	}
 	ur.Name = unitNameOf(fn)
 	ur.Func = fn.String()
-	g = newGen(p)
+	g = newGen(p, fc.IntMode)
 	if fn.Pkg != nil {
 		g.curPkg = fn.Pkg.Pkg
 	}
@@ -143,7 +146,7 @@ func (fr *Frame) inputTerms() (terms, names []string) {
 			if isString(t) {
 				add(fmt.Sprintf("(slen %s)", term), "len("+name+")")
 				for i := 0; i < 8; i++ {
-					add(fmt.Sprintf("(sat %s %s)", term, bvInt(int64(i), 64)), fmt.Sprintf("%s[%d]", name, i))
+					add(fmt.Sprintf("(sat %s %s)", term, g.ilit(int64(i))), fmt.Sprintf("%s[%d]", name, i))
 				}
 				return
 			}
@@ -156,7 +159,7 @@ func (fr *Frame) inputTerms() (terms, names []string) {
 				nm, srt := g.elemArrName(u.Elem())
 				arr := g.heapArr(fr.entry, nm, srt)
 				for i := 0; i < 24; i++ {
-					add(fmt.Sprintf("(select (select %s (s_arr %s)) (bvadd (s_off %s) %s))", arr, term, term, bvInt(int64(i), 64)), fmt.Sprintf("%s[%d]", name, i))
+					add(fmt.Sprintf("(select (select %s (s_arr %s)) %s)", arr, term, g.iadd("(s_off "+term+")", g.ilit(int64(i)))), fmt.Sprintf("%s[%d]", name, i))
 				}
 			}
 		case *types.Pointer:
@@ -186,7 +189,7 @@ func (fr *Frame) inputTerms() (terms, names []string) {
 		case *types.Array:
 			if u.Len() <= 8 {
 				for i := int64(0); i < u.Len(); i++ {
-					walk(fmt.Sprintf("%s[%d]", name, i), fmt.Sprintf("(select %s %s)", term, bvInt(i, 64)), u.Elem(), depth+1)
+					walk(fmt.Sprintf("%s[%d]", name, i), fmt.Sprintf("(select %s %s)", term, g.ilit(i)), u.Elem(), depth+1)
 				}
 			}
 		case *types.Interface:
@@ -205,8 +208,11 @@ func (fr *Frame) inputTerms() (terms, names []string) {
 
 // genLemma: a closed formula over spec functions.
 func (p *Program) genLemma(lm *Lemma) (*Gen, *UnitResult) {
-	ur := &UnitResult{Kind: "lemma", Name: "lemma." + lm.Name, File: lm.File, Mode: "bv64"}
-	g := newGen(p)
+	ur := &UnitResult{Kind: "lemma", Name: "lemma." + lm.Name, File: lm.File, Mode: "bv"}
+	if lm.IntMode {
+		ur.Mode = "int (mathematical integers)"
+	}
+	g := newGen(p, lm.IntMode)
 	defer func() {
 		if r := recover(); r != nil {
 			if ge, ok := r.(genErr); ok {
